@@ -268,6 +268,7 @@ CHECKS["C20"] = {
         J("losfn-owned", "c20", "TestLoadOrStoreFnOwnedSchedule", 1500, 150000, 4, race=True),
         J("map-free", "c20", "TestMapFreeSchedule", 800, 100000, 4, race=True),
         J("sets-free", "c20", "TestSetsFreeSchedule", 600, 50000, 2, race=True),
+        J("sets-sequential", "c20", "TestSetsSequentialModel", 400, 20000, 2, race=True),
     ],
     "assumptions": [
         "the Go scheduler is not owned: races are searched by the race detector's happens-before analysis over generated scenarios under GOMAXPROCS 2/4/16 (exploration of schedules, not coverage); only the LoadOrStoreFn callback yield point is owned",
